@@ -82,7 +82,8 @@ def exec_structure(case):
     if aq is not None:
         kw["activations"] = case["aq"] if case["wq_by_name"] else aq
     if flt is not None:
-        kw["modules"] = flt
+        # the filter in one of the forms an iterable of modules comes in: a list, a tuple, or a generator expression
+        kw["modules"] = [flt, tuple(flt), (m_ for m_ in flt), iter(flt)][case["seed"] % 4]
     r = cut(quantize, model, **kw)
     kinds = sorted({base_class(mods[n]).__name__ for n in eligible})
     depth = max((n.count(".") for n in names), default=0)
